@@ -39,6 +39,35 @@ T = {
  "C19-1": (["C19"], "", None), "C19-2": (["C19"], "", None),
  "C20-1": (["C20"], "caught after odd line separators (CR, CRLF, FF) were added to the texts", None), "C20-2": (["C20"], "caught after interleaved declarations were generated", None),
 }
+
+# ---- round 2 (the sub-agents were asked for defects a verification effort is likely to overlook)
+T.update({
+ "C01-3": (["C01"], "first missed; caught after the generator got float variables that hold Python ints (default-initialised, changed only by ++/--) and their quotient", "a float-typed division whose two run-time operands are int-valued floats (float locals only default-initialised and then ++'d)"),
+ "C01-4": (["C01"], "first missed; caught after logical operators with float operands (values strictly between 0 and 1) were generated", "a float-typed expression with a value in (0,1) used directly as an operand of && / ||"),
+ "C02-3": (["C02"], "", "a global is stored, a callee that writes the same global is called, the global is loaded afterwards — in one basic block"),
+ "C02-4": (["C02"], "first missed; caught after the corpus got whole-struct assignment followed by a member store with a literal right-hand side", "b = a (or b = make(n)) immediately followed by b.kind = 7 — the second variant needs both optimisation passes to interact"),
+ "C03-3": (["C03"], "first missed; caught after callees got local nested aggregates (2-D arrays) read before and after the recursive call", "a local multi-dimensional array / struct with array member in a function executed more than once (recursion, second call, loop)"),
+ "C03-4": (["C03"], "first missed; caught after overloads that differ in ARITY (and a call that needs an implicit conversion on the extra argument) were generated", "overloads of different arity, the call with the larger arity needing an implicit conversion on the extra argument"),
+ "C05-3": (["C05"], "", "a loop with break/continue and another loop lowered afterwards; the break actually taken at run time"),
+ "C05-4": (["C05"], "", "a function reached through a CALL that assigns to its own parameter"),
+ "C09-3": (["C09"], "first missed; caught after the typing rule and the conversions were checked at EVERY operator node of nested expressions, assignments, initialisers, call arguments", "a binary expression whose operand already has the operator's operand type and itself contains a mixed-type binary expression: (i + x) * y"),
+ "C09-4": (["C09"], "first missed; caught after literal operands were added to the front-end leg", "a non-negative integer literal next to a uint operand: u + 1, u - 1"),
+ "C10-3": (["C10"], "first missed; caught after the caller was declared at every position among the overloads", "the calling function declared before at least one overload of the callee"),
+ "C10-4": (["C10"], "first missed; caught after modules with two calls of one name on different vector types were generated", "a second call to the same name whose arguments have the same Python classes but different vector types (int2 then float2)"),
+ "C11-3": (["C11"], "", "two loops lowered in one process, the earlier-closed one containing break/continue"),
+ "C11-4": (["C11"], "", "break/continue of the outer loop placed after a nested loop has closed"),
+ "C12-3": (["C12"], "", "an unbraced declaration as if/else/while body, followed by a use or redeclaration of the name"),
+ "C12-4": (["C12"], "first missed (C12 had no run-time leg); caught after programs whose sibling scopes re-use a name were compared with their alpha-renamed versions on the VM", "two sibling scopes executed in one call that re-use a name, the second declaration without initialiser / an array / of another type"),
+ "C13-3": (["C13"], "first missed; caught after the same access chains were placed inside other index expressions, operands, targets, conditions and call arguments", "an out-of-range constant index on an access that sits inside the index expression of another access: a[b[4]]"),
+ "C13-4": (["C13"], "ported onto the repaired validator (8761bd5); caught by the placement family (a valid use of the same mask on a wider type first)", "the same mask used validly on a wider type earlier (same function, earlier function) and then on a narrower vector"),
+ "C14-3": (["C14"], "", "a loop with break/continue and another loop lowered later in a different function"),
+ "C14-4": (["C14"], "first missed; caught after modules with two functions that each contain row-wise matrix operations were generated (vec generator, corpus)", "two functions in one module that each contain a row-wise matrix operation (M+M, M*S, S*M)"),
+ "C15-3": (["C15"], "first missed; caught after histories got local structs with array members written in place", "a local struct with an array or struct member, written in place, whose declaration runs again on the same VM"),
+ "C15-4": (["C15"], "first missed; caught after histories got a recursive helper that keeps a value across the inner call", "recursion at least two levels deep where the outer activation uses after the call a value it produced before it"),
+ "C20-3": (["C20"], "", "a source containing a form feed / lone CR / U+2028 ... and a position reported after it"),
+ "C20-4": (["C20"], "", "a hex literal as the last token of an initialiser"),
+})
+
 for sid, (caught, note, needs) in sorted(T.items()):
     d = os.path.join(ROOT, sid)
     notes = open(os.path.join(d, "notes.md")).read()
